@@ -11,13 +11,15 @@
           C                           Close
           L,<i>  K,<i>  D,<i>,<mac>   loop i: lookup / check / write (the MAC is the Ethernet destination the
                                       harness saw, kept for the reader; the model ignores it)
-          R,<op>,<ethsrc>,<smac>,<sip>,<tmac>,<tip>    ProcessPacket on a valid ARP frame (op decimal)
+          R,<op>,<ethsrc>,<smac>,<sip>,<tmac>,<tip>    ProcessPacket on a valid ARP frame (op decimal), up to the write of a spoof reply
+          RR,<k>                      the write of the k-th spoof reply in flight
           X,<ethertype hex4>,<payload hex|->           ProcessPacket on any frame Parse hands over
           O,<mac>,<ip|->              the session's DHCP offer for mac is set / cleared
           F,<k>                       the connection fails its next k writes
           AR,<ip>  AT,<dst>,<ip>  AP,<ip>  AA,<dst>,<ip>       Request / RequestTo / Probe / AnnounceTo
           AW,<dst>,<smac>,<sip>,<tmac>,<tip>   AY,<dst>,...     RequestRaw / Reply
-          AS  AH,<ip>,<tries>                                   Scan / WhoIs
+          AS  SC,<j>  SS,<j>          Scan() is called / scan j takes its next address / scan j writes
+          AH,<ip>,<tries>  AX         WhoIs / any public send call with an unusable address or MAC
 
    Observation: for every event the frames it emitted, events separated by "/", frames by "+",
    a frame as op.ethdst.smac.sip.tmac.tip ; "-" when nothing was emitted; "panic" if ProcessPacket panics.
@@ -72,12 +74,16 @@ Definition parse_event (t : string) : option event :=
   match commas t with
   | [k] => if String.eqb k "SI" then Some StartHuntInvalid
            else if String.eqb k "C" then Some Close
-           else if String.eqb k "AS" then Some ApiScan else None
+           else if String.eqb k "AS" then Some ApiScan
+           else if String.eqb k "AX" then Some ApiInvalid else None
   | [k; a] =>
       if String.eqb k "T" then option_map StopHunt (hexN 6 a)
       else if String.eqb k "L" then option_map Lookup (nat_of_dec a)
       else if String.eqb k "K" then option_map Check (nat_of_dec a)
       else if String.eqb k "F" then option_map FailWrites (nat_of_dec a)
+      else if String.eqb k "RR" then option_map RxReply (nat_of_dec a)
+      else if String.eqb k "SC" then option_map ScanCheck (nat_of_dec a)
+      else if String.eqb k "SS" then option_map ScanSend (nat_of_dec a)
       else if String.eqb k "AR" then option_map ApiRequest (hexN 4 a)
       else if String.eqb k "AP" then option_map ApiProbe (hexN 4 a)
       else None
